@@ -91,13 +91,13 @@ type runner[K any] struct {
 }
 
 // apply executes the history on a fresh list; it returns the list, the reference and the results of the last op.
-func (r runner[K]) exec(hist []op) (m maplike.MapLike[K, string], ref map[int]string, got, want string, src *heights) {
+func (r runner[K]) exec(hist []op, printAfter ...int) (m maplike.MapLike[K, string], ref map[int]string, got, want string, src *heights) {
 	m = skiplist.New[K, string](r.u.cmp)
 	_, table := skiplist.VerifTable(m)
 	src = &heights{table: table}
 	skiplist.VerifSetSource(m, src)
 	ref = map[int]string{}
-	for _, o := range hist {
+	for i, o := range hist {
 		got, want = "", ""
 		switch o.Kind {
 		case "put":
@@ -116,8 +116,18 @@ func (r runner[K]) exec(hist []op) (m maplike.MapLike[K, string], ref map[int]st
 			want = ref[o.K]
 			delete(ref, o.K)
 		}
+		if len(printAfter) > 0 && (printAfter[0] == i || printAfter[0] < 0) {
+			_ = fmt.Sprint(m) // printing is a read: it may be done at any time and changes nothing
+		}
 	}
 	return
+}
+
+func stripHeader(printed string) string {
+	if i := strings.Index(printed, "\n"); i >= 0 {
+		return printed[i+1:] // drop the header with the address
+	}
+	return printed
 }
 
 // check returns "" or a violation message for the state after hist; canon is the canonical state.
@@ -169,6 +179,18 @@ func (r runner[K]) check(hist []op) (canon string, msg string) {
 	}
 	// full read-back on a second instance (a read may change hidden state, e.g. a lookup cache, so the
 	// instance whose state is canonicalised below is not read)
+	// further instances are printed once in the middle of the history (after operation i, for every i but the last),
+	// and one after every operation: the last printout is the same text
+	for i := -1; i < len(hist)-1 && len(hist) >= 2; i++ {
+		mp, _, _, _, _ := r.exec(hist, i)
+		if p3 := stripHeader(fmt.Sprint(mp)); p3 != printed {
+			when := fmt.Sprintf("after operation %d (%s)", i+1, hist[max(i, 0)])
+			if i < 0 {
+				when = "after every operation"
+			}
+			return "", fmt.Sprintf("a list that was also printed %s prints\n%s\nat the end of the same history; a list that was never printed before prints\n%s", when, p3, printed)
+		}
+	}
 	m2, ref2, _, _, _ := r.exec(hist)
 	for k := range r.u.keys {
 		if v := m2.Get(r.u.keys[k]); v != ref2[k] {
